@@ -3,21 +3,106 @@ package c14
 
 import (
 	"context"
+	"fmt"
 	"strconv"
+	"sync"
+	"sync/atomic"
 
 	"github.com/ecodeclub/ekit/syncx"
 	"verifharness/lockstep"
 )
 
-type limitPool struct{ p *syncx.LimitPool[int] }
+// lpObj is what the factory hands out: a counter-stamped, distinguishable object.  state tells whether a
+// client currently holds it (set by the harness when Get returns it, cleared just BEFORE it is Put).
+type lpObj struct {
+	id      int64
+	owner   *lpTracker
+	state   atomic.Int32 // 0 = not held by a client (fresh from the factory or Put back), 1 = held
+	everPut atomic.Bool
+}
+
+// lpTracker evaluates the object clauses on every (obj, ok) a Get returns:
+//   - ok=true  => obj is non-nil, was made by THIS pool's factory (hence fresh or previously Put) and is not held
+//     by anybody at this moment (exclusivity: an object returned by Get is not returned again until it was Put);
+//   - ok=false => obj is the zero value (nil).
+//
+// Put(obj) followed by a Get may return obj or any other previously Put object or a fresh one (sync.Pool).
+type lpTracker struct {
+	made, fresh, recycled atomic.Int64
+}
+
+func (t *lpTracker) factory() *lpObj { return &lpObj{id: t.made.Add(1), owner: t} }
+
+func (t *lpTracker) onGet(o *lpObj, ok bool) string {
+	if !ok {
+		if o != nil {
+			return fmt.Sprintf("Get returned ok=false together with a non-zero object (#%d)", o.id)
+		}
+		return ""
+	}
+	if o == nil {
+		return "Get returned (nil, true): a zero object although the factory never returns nil"
+	}
+	if o.owner != t || o.id <= 0 {
+		return "Get returned an object that neither this pool's factory made nor anybody Put"
+	}
+	if !o.state.CompareAndSwap(0, 1) {
+		return fmt.Sprintf("object #%d handed to two holders (returned by Get again before it was Put)", o.id)
+	}
+	if o.everPut.Load() {
+		t.recycled.Add(1)
+	} else {
+		t.fresh.Add(1)
+	}
+	return ""
+}
+
+// beforePut must be called by the holder immediately before Put(o).
+func (t *lpTracker) beforePut(o *lpObj) {
+	o.everPut.Store(true)
+	o.state.Store(0)
+}
+
+type limitPool struct {
+	p    *syncx.LimitPool[*lpObj]
+	t    *lpTracker
+	mu   sync.Mutex
+	held []*lpObj
+	nput int
+}
 
 func (l *limitPool) Call(ctx context.Context, tid int, op string, args []string) string {
 	switch op {
 	case "get":
-		_, ok := l.p.Get()
+		o, ok := l.p.Get()
+		if msg := l.t.onGet(o, ok); msg != "" {
+			return strconv.FormatBool(ok) + " !" + msg
+		}
+		if ok {
+			l.mu.Lock()
+			l.held = append(l.held, o)
+			l.mu.Unlock()
+		}
 		return strconv.FormatBool(ok)
 	case "put":
-		l.p.Put(0)
+		l.mu.Lock()
+		var o *lpObj
+		if n := len(l.held); n > 0 {
+			i := 0
+			if l.nput%2 == 1 { // alternately the oldest and the newest object held
+				i = n - 1
+			}
+			l.nput++
+			o = l.held[i]
+			l.held = append(l.held[:i], l.held[i+1:]...)
+		}
+		l.mu.Unlock()
+		if o == nil {
+			o = l.t.factory()
+			o.state.Store(1)
+		}
+		l.t.beforePut(o)
+		l.p.Put(o)
 		return "unit"
 	}
 	return "badop"
@@ -26,6 +111,7 @@ func (l *limitPool) Call(ctx context.Context, tid int, op string, args []string)
 func init() {
 	lockstep.Register("limitpool", func(params []string) lockstep.Instance {
 		n, _ := strconv.Atoi(params[0])
-		return &limitPool{p: syncx.NewLimitPool(n, func() int { return 0 })}
+		t := &lpTracker{}
+		return &limitPool{p: syncx.NewLimitPool(n, t.factory), t: t}
 	})
 }
